@@ -67,6 +67,8 @@
 //! ```
 
 mod db;
+#[cfg(datacake_verif)]
+pub mod verif;
 
 use std::path::Path;
 
